@@ -1635,6 +1635,8 @@ class NetworkGrid:
             node_id: id of node
 
         """
+        if node_id not in self.G.nodes:
+            raise KeyError(node_id)
         self.remove_agent(agent)
         self.place_agent(agent, node_id)
 
